@@ -60,6 +60,26 @@ def logSpace (exp log : Rat → Rat) (min max : Rat) (steps : Nat) : List Rat :=
     let dlog := log (max / min) / ((steps : Rat) - 1)
     (List.range steps).map (fun (i : Nat) => exp (logmin + (i : Rat) * dlog))
 
+/-- `Linear_Space` when `max - min` overflows (fix: interpolate between the end points): the points
+    `(1 - t)·min + t·max`, `t = i/(steps-1)`.  Over the rationals nothing overflows and this is the same
+    list as `linearSpace` (theorem `linearSpace_interp_noop`): the guard is value-neutral. -/
+def linearSpaceInterp (min max : Rat) (steps : Nat) : List Rat :=
+  if steps < 2 ∨ min = max then [min]
+  else (List.range steps).map (fun (i : Nat) =>
+    let t := (i : Rat) / ((steps : Rat) - 1)
+    (1 - t) * min + t * max)
+
+/-- `Log_Space` after the repair (fix: exact ends, no overflow): the log-step is `log(max/min)/(steps-1)`
+    (`log max - log min` when the ratio is not a normal double — the same real number), and each point is
+    the nearer end point times `exp` of its log-distance from that end. -/
+def logSpace2 (exp log : Rat → Rat) (min max : Rat) (steps : Nat) : List Rat :=
+  if steps < 2 ∨ min = max then [min]
+  else
+    let dlog := log (max / min) / ((steps : Rat) - 1)
+    (List.range steps).map (fun (i : Nat) =>
+      if 2 * i < steps then min * exp ((i : Rat) * dlog)
+      else max * exp (-1 * ((steps - 1 - i : Nat) : Rat) * dlog))
+
 /-! ### Locate_Closest_Location -/
 
 def isSorted : List Rat → Bool
